@@ -83,11 +83,6 @@ func c14Apply(op byte, k, a, b int64) (int64, bool) {
 
 // c14Bin builds a binary term, folding constants (no other algebraic rewriting).
 func c14Bin(op byte, k int64, a, b *c14T) *c14T {
-	if op == '*' && a.op == '*' { // k·(j·a) = (k·j)·a over ℤ
-		if kj, ok := c14MulOK(k, a.k); ok {
-			k, a = kj, a.a
-		}
-	}
 	if op == '*' && k == 1 {
 		return a
 	}
@@ -101,6 +96,19 @@ func c14Bin(op byte, k int64, a, b *c14T) *c14T {
 		}
 	}
 	return &c14T{op: op, k: k, a: a, b: b}
+}
+
+// c14Coef splits t = k·core by collecting nested constant factors: k1·(k2·a) = (k1·k2)·a over ℤ.
+func c14Coef(t *c14T) (int64, *c14T) {
+	k := int64(1)
+	for t.op == '*' {
+		kk, ok := c14MulOK(k, t.k)
+		if !ok {
+			break
+		}
+		k, t = kk, t.a
+	}
+	return k, t
 }
 
 func c14Eq(a, b *c14T) bool {
@@ -225,41 +233,76 @@ func (fs c14Facts) with(more ...c14F) c14Facts {
 	return append(append(c14Facts{}, fs...), more...)
 }
 
-// varBound. Rule F0 (integers): a fact "x op k" or "k op x" between a variable and a
-// constant gives x<k ⇒ x ≤ k-1; x≤k; x>k ⇒ x ≥ k+1; x≥k; x==k ⇒ both. Facts of any other
-// shape are never used to derive a bound (sound: fewer premises).
-func (fs c14Facts) varBound(x int64, up bool) (int64, bool) {
+// c14Shift: is a the term t shifted by a constant, a = t - c?  (a ≡ t: c = 0; a = t-d: c = d; a = t+d: c = -d)
+func c14Shift(a, t *c14T) (int64, bool) {
+	switch {
+	case c14Eq(a, t):
+		return 0, true
+	case a.op == '-' && a.b.op == 'k' && c14Eq(a.a, t):
+		return a.b.k, true
+	case a.op == '+' && a.b.op == 'k' && c14Eq(a.a, t) && a.b.k != -a.b.k:
+		return -a.b.k, true
+	case a.op == '+' && a.a.op == 'k' && c14Eq(a.b, t) && a.a.k != -a.a.k:
+		return -a.a.k, true
+	}
+	return 0, false
+}
+
+// factBound. Rule F (integers): a fact "(t - c) op b" (or mirrored "b op (t - c)"), where the
+// left side is structurally the term t shifted by a constant c (c may be 0) and b has the
+// constant bound B by rule B (one fact hop less), gives
+//
+//	t-c ≤ b ⇒ t ≤ B+c      t-c < b ⇒ t ≤ B+c-1      t-c ≥ b ⇒ t ≥ B+c      t-c > b ⇒ t ≥ B+c+1      t-c == b ⇒ both
+//
+// Facts of any other shape are never used to derive a bound (sound: fewer premises).
+func (fs c14Facts) factBound(t *c14T, up bool, depth int) (int64, bool) {
 	best, have := int64(0), false
+	if depth <= 0 || t.op == 'k' {
+		return 0, false
+	}
 	for _, f := range fs {
-		op, a, b := f.op, f.a, f.b
-		if a.op == 'k' && b.op == 'v' {
-			op, a, b = c14FlipOp[op], b, a
-		}
-		if a.op != 'v' || a.k != x || b.op != 'k' {
-			continue
-		}
-		k, ok := b.k, false
-		switch {
-		case op == token.EQL:
-			ok = true
-		case up && op == token.LEQ, !up && op == token.GEQ:
-			ok = true
-		case up && op == token.LSS:
-			k, ok = c14AddOK(k, -1)
-		case !up && op == token.GTR:
-			k, ok = c14AddOK(k, 1)
-		}
-		if ok && (!have || (up && k < best) || (!up && k > best)) {
-			best, have = k, true
+		for _, o := range [2]struct {
+			op   token.Token
+			a, b *c14T
+		}{{f.op, f.a, f.b}, {c14FlipOp[f.op], f.b, f.a}} {
+			c, ok := c14Shift(o.a, t)
+			if !ok {
+				continue
+			}
+			adj := int64(0)
+			switch {
+			case o.op == token.EQL, up && o.op == token.LEQ, !up && o.op == token.GEQ:
+			case up && o.op == token.LSS:
+				adj = -1
+			case !up && o.op == token.GTR:
+				adj = 1
+			default:
+				continue
+			}
+			B, ok := fs.boundD(o.b, up, depth-1)
+			if !ok {
+				continue
+			}
+			if B, ok = c14AddOK(B, c); ok {
+				if B, ok = c14AddOK(B, adj); ok && (!have || (up && B < best) || (!up && B > best)) {
+					best, have = B, true
+				}
+			}
 		}
 	}
 	return best, have
 }
 
+// varBound: constant bound of a variable (rule F with the full hop budget).
+func (fs c14Facts) varBound(x int64, up bool) (int64, bool) {
+	return fs.factBound(&c14T{op: 'v', k: x}, up, 2)
+}
+
 // bound derives a constant L with facts ⊢ t ≥ L (up=false) or U with t ≤ U (up=true).
 //
 //	B-const  k ≤ k ≤ k
-//	B-var    rule F0
+//	B-fact   rule F: every term (not only variables) may also be bounded through a fact about it; the
+//	         better of the structural and the fact bound is used (at most two fact hops)
 //	B-add    lo(a+b)=lo a+lo b            hi(a+b)=hi a+hi b
 //	B-sub    lo(a-b)=lo a-hi b            hi(a-b)=hi a-lo b
 //	B-mul    k≥0: lo(k·a)=k·lo a, hi(k·a)=k·hi a;  k<0: lo(k·a)=k·hi a, hi(k·a)=k·lo a
@@ -269,35 +312,50 @@ func (fs c14Facts) varBound(x int64, up bool) (int64, bool) {
 //	B-max    dual of B-min
 //
 // Any overflow of the checker's own arithmetic makes the bound unavailable.
-func (fs c14Facts) bound(t *c14T, up bool) (int64, bool) {
+func (fs c14Facts) bound(t *c14T, up bool) (int64, bool) { return fs.boundD(t, up, 2) }
+
+func (fs c14Facts) boundD(t *c14T, up bool, depth int) (int64, bool) {
+	s, ok1 := fs.sbound(t, up, depth)
+	f, ok2 := fs.factBound(t, up, depth)
+	switch {
+	case ok1 && ok2 && up:
+		return min(s, f), true
+	case ok1 && ok2:
+		return max(s, f), true
+	case ok1:
+		return s, true
+	}
+	return f, ok2
+}
+
+// sbound: the structural rules B-const … B-max.
+func (fs c14Facts) sbound(t *c14T, up bool, depth int) (int64, bool) {
 	switch t.op {
 	case 'k':
 		return t.k, true
-	case 'v':
-		return fs.varBound(t.k, up)
 	case '+':
-		a, ok1 := fs.bound(t.a, up)
-		b, ok2 := fs.bound(t.b, up)
+		a, ok1 := fs.boundD(t.a, up, depth)
+		b, ok2 := fs.boundD(t.b, up, depth)
 		if ok1 && ok2 {
 			return c14AddOK(a, b)
 		}
 	case '-':
-		a, ok1 := fs.bound(t.a, up)
-		b, ok2 := fs.bound(t.b, !up)
+		a, ok1 := fs.boundD(t.a, up, depth)
+		b, ok2 := fs.boundD(t.b, !up, depth)
 		if ok1 && ok2 {
 			return c14Apply('-', 0, a, b)
 		}
 	case '*':
-		if a, ok := fs.bound(t.a, up == (t.k >= 0)); ok {
+		if a, ok := fs.boundD(t.a, up == (t.k >= 0), depth); ok {
 			return c14MulOK(t.k, a)
 		}
 	case '/':
-		if a, ok := fs.bound(t.a, up); ok && t.k > 0 {
+		if a, ok := fs.boundD(t.a, up, depth); ok && t.k > 0 {
 			return a / t.k, true
 		}
 	case 'n', 'x':
-		a, ok1 := fs.bound(t.a, up)
-		b, ok2 := fs.bound(t.b, up)
+		a, ok1 := fs.boundD(t.a, up, depth)
+		b, ok2 := fs.boundD(t.b, up, depth)
 		either := (t.op == 'n') == up // hi of min / lo of max: one side suffices
 		switch {
 		case ok1 && ok2:
@@ -362,11 +420,23 @@ func (fs c14Facts) implies(f c14F) bool { return fs.with(f.neg()).contradictory(
 //	L-refl   x ≤ c·x+k          if k ≥ 0 and (c = 1 or lo x ≥ 0)
 //	L-sub    a-d ≤ c·x+k        if a ≤ c·x+(k+d)    (d constant)
 //	L-add    a+d ≤ c·x+k        if a ≤ c·x+(k-d)    (d constant, either operand)
-//	L-mul    j·a ≤ c·x+k        if j > 0, j | c and a ≤ (c/j)·x + ⌊k/j⌋   (then j·a ≤ c·x + j⌊k/j⌋ ≤ c·x + k)
+//	L-mul    j·a ≤ c·x+k        if j > 0, g = gcd(j,c) and (j/g)·a ≤ (c/g)·x + ⌊k/g⌋
+//	                            (then j·a ≤ c·x + g⌊k/g⌋ ≤ c·x + k)
 //	L-min    min(a,b) ≤ u       if a ≤ u or b ≤ u
 //	L-max    max(a,b) ≤ u       if a ≤ u and b ≤ u
+//	L-fact   t ≤ c·x+k          if a fact says t ≤ u (or t == u) and u ≤ c·x+k; t < u and u ≤ c·x+k+1
+//	                            (t structurally the fact's side; at most three fact hops)
 //	L-const  t ≤ c·x+k          if hi t ≤ c·lo x + k   (rule B bounds)
-func (fs c14Facts) le(t *c14T, c, x, k int64) bool {
+func (fs c14Facts) le(t *c14T, c, x, k int64) bool { return fs.leD(t, c, x, k, 3) }
+
+func c14Gcd(a, b int64) int64 {
+	for b != 0 {
+		a, b = b, a%b
+	}
+	return a
+}
+
+func (fs c14Facts) leD(t *c14T, c, x, k int64, depth int) bool {
 	if c < 1 {
 		return false
 	}
@@ -378,35 +448,56 @@ func (fs c14Facts) le(t *c14T, c, x, k int64) bool {
 		}
 	case '-':
 		if t.b.op == 'k' {
-			if k2, ok := c14AddOK(k, t.b.k); ok && fs.le(t.a, c, x, k2) {
+			if k2, ok := c14AddOK(k, t.b.k); ok && fs.leD(t.a, c, x, k2, depth) {
 				return true
 			}
 		}
 	case '+':
 		for _, p := range [][2]*c14T{{t.a, t.b}, {t.b, t.a}} {
 			if p[1].op == 'k' {
-				if k2, ok := c14Apply('-', 0, k, p[1].k); ok && fs.le(p[0], c, x, k2) {
+				if k2, ok := c14Apply('-', 0, k, p[1].k); ok && fs.leD(p[0], c, x, k2, depth) {
 					return true
 				}
 			}
 		}
 	case '*':
-		if j := t.k; j > 0 && c%j == 0 {
-			q := k / j
-			if k%j != 0 && k < 0 {
-				q-- // floor division
-			}
-			if fs.le(t.a, c/j, x, q) {
-				return true
+		if j := t.k; j > 0 {
+			if g := c14Gcd(j, c); g > 1 {
+				q := k / g
+				if k%g != 0 && k < 0 {
+					q-- // floor division
+				}
+				if fs.leD(c14Bin('*', j/g, t.a, nil), c/g, x, q, depth) {
+					return true
+				}
 			}
 		}
 	case 'n':
-		if fs.le(t.a, c, x, k) || fs.le(t.b, c, x, k) {
+		if fs.leD(t.a, c, x, k, depth) || fs.leD(t.b, c, x, k, depth) {
 			return true
 		}
 	case 'x':
-		if fs.le(t.a, c, x, k) && fs.le(t.b, c, x, k) {
+		if fs.leD(t.a, c, x, k, depth) && fs.leD(t.b, c, x, k, depth) {
 			return true
+		}
+	}
+	if depth > 0 && t.op != 'k' {
+		for _, f := range fs {
+			for _, o := range [2]struct {
+				op   token.Token
+				a, b *c14T
+			}{{f.op, f.a, f.b}, {c14FlipOp[f.op], f.b, f.a}} {
+				if !c14Eq(o.a, t) || c14Eq(o.b, t) {
+					continue
+				}
+				k2, ok := k, o.op == token.LEQ || o.op == token.EQL
+				if o.op == token.LSS {
+					k2, ok = c14AddOK(k, 1)
+				}
+				if ok && fs.leD(o.b, c, x, k2, depth-1) {
+					return true
+				}
+			}
 		}
 	}
 	if hi, ok := fs.bound(t, true); ok && haveLo {
@@ -476,10 +567,13 @@ type c14Path struct {
 }
 
 type c14Exec struct {
-	pre    c14Facts
-	paths  []c14Path
-	err    string
-	budget int
+	pre      c14Facts
+	paths    []c14Path
+	err      string
+	budget   int
+	probeAt  ssa.Instruction // when set: collect the value of probeVal where probeAt executes in the root frame
+	probeVal ssa.Value
+	missed   int
 }
 
 // c14Wide: arithmetic is modelled only for 64-bit signed integers (int64, int and named
@@ -586,6 +680,11 @@ func (x *c14Exec) run(st *c14State) {
 		fr := st.stack[len(st.stack)-1]
 		instr := fr.blk.Instrs[fr.pc]
 		fr.pc++
+		if x.probeAt != nil && instr == x.probeAt && len(st.stack) == 1 {
+			// probe mode: the path ends where the consumer is called; its argument is the result
+			x.paths = append(x.paths, c14Path{st.facts.with(), x.val(fr, x.probeVal)})
+			return
+		}
 		switch in := instr.(type) {
 		case *ssa.DebugRef:
 		case *ssa.Alloc:
@@ -686,6 +785,10 @@ func (x *c14Exec) run(st *c14State) {
 			}
 			nf.ret = in
 			st.stack = append(st.stack, nf)
+		case *ssa.Extract:
+			if tu := x.val(fr, in.Tuple); tu.kind == 't' && in.Index < len(tu.fs) {
+				fr.env[in] = tu.fs[in.Index]
+			}
 		case *ssa.Jump:
 			x.enter(fr, fr.blk.Succs[0])
 		case *ssa.If:
@@ -709,13 +812,19 @@ func (x *c14Exec) run(st *c14State) {
 			}
 			return
 		case *ssa.Return:
-			if len(in.Results) != 1 {
-				x.err = fmt.Sprintf("%s does not return exactly one value", fnName(fr.fn))
-				return
+			rv := c14V{kind: 't'} // several results: a tuple, taken apart by Extract
+			for _, r := range in.Results {
+				rv.fs = append(rv.fs, x.val(fr, r))
 			}
-			rv := x.val(fr, in.Results[0])
+			if len(in.Results) == 1 {
+				rv = rv.fs[0]
+			}
 			if len(st.stack) == 1 {
-				x.paths = append(x.paths, c14Path{st.facts.with(), rv})
+				if x.probeAt != nil {
+					x.missed++ // returned without reaching the probed consumer
+				} else {
+					x.paths = append(x.paths, c14Path{st.facts.with(), rv})
+				}
 				return
 			}
 			st.stack = st.stack[:len(st.stack)-1]
@@ -731,13 +840,23 @@ func (x *c14Exec) run(st *c14State) {
 type c14Root struct {
 	fn    *ssa.Function
 	roles []string
+	// probe: instead of fn's result, the value handed to a consumer (time.NewTimer, WithSoftTime)
+	// that fn itself calls — a helper like newHardTimer(tc, stm) wrapping the timer creation.
+	probeAt  ssa.Instruction
+	probeVal ssa.Value
 }
 
-func (r c14Root) key() string { return fnName(r.fn) + "(" + strings.Join(r.roles, ",") + ")" }
+func (r c14Root) key() string {
+	k := fnName(r.fn) + "(" + strings.Join(r.roles, ",") + ")"
+	if r.probeAt != nil {
+		k += fmt.Sprintf("@consumer%d", r.probeAt.Pos())
+	}
+	return k
+}
 
 // c14Enumerate returns every feasible path of root under the precondition pre.
 func c14Enumerate(root c14Root, st *types.Struct, pre c14Facts) ([]c14Path, string) {
-	x := &c14Exec{pre: pre, budget: 200000}
+	x := &c14Exec{pre: pre, budget: 200000, probeAt: root.probeAt, probeVal: root.probeVal}
 	s := &c14State{}
 	fr := c14NewFrame(root.fn)
 	var fields []c14V
@@ -761,6 +880,9 @@ func c14Enumerate(root c14Root, st *types.Struct, pre c14Facts) ([]c14Path, stri
 	}
 	s.stack = []*c14Frame{fr}
 	x.run(s)
+	if x.err == "" && x.missed > 0 {
+		x.err = fmt.Sprintf("%s returns on %d path(s) without reaching the consumer it wraps", fnName(root.fn), x.missed)
+	}
 	return x.paths, x.err
 }
 
@@ -939,8 +1061,9 @@ type c14W struct {
 type c14Site struct {
 	at   ssa.CallInstruction
 	name string
-	unit int64 // constant factor applied at the call site
-	S    int64 // units per millisecond the consumer expects
+	unit int64     // constant factor applied at the call site
+	tv   ssa.Value // the value (in handleGo's family) that carries the created timer, nil if unknown
+	S    int64     // units per millisecond the consumer expects
 	root c14Root
 	err  string
 }
@@ -1032,7 +1155,7 @@ func (w *c14W) classify(v ssa.Value) (root c14Root, touches bool, err string) {
 			return root, true, "call mixes time-control arguments with values the rule does not understand"
 		}
 	}
-	return c14Root{fn, roles}, true, ""
+	return c14Root{fn: fn, roles: roles}, true, ""
 }
 
 // touchesTC: does v depend on the time-control struct or the side-to-move source?
@@ -1150,6 +1273,7 @@ func init() {
 			"The functions analysed are whatever handleGo wires into time.NewTimer (hard deadline) and search.WithSoftTime (soft target); the meaning of the struct fields is taken from the UCI token switch (R4), not from names. " +
 			"R1: all paths of the deadline function (callees and Clamp's min/max inlined from SSA) are enumerated under each domain precondition (White to move / Black to move with own clock ≥ 1 and no movetime; movetime ≥ 1), strengthened by the tc/stm conditions guarding the call site, and a fixed set of monotonicity rules proves result ≥ 1, result ≤ remaining, remaining > margin ⇒ result ≤ remaining − margin, result = movetime, and absence of int64 overflow incl. the conversion to nanoseconds; an unprovable goal is 'undecided' unless a boundary-grid evaluation of the derived term yields a concrete counterexample (then 'violation'). " +
 			"R2: after merging paths that differ only in irrelevant tests, no field carried by an opponent's UCI token is mentioned on a colour's paths; a mention is a violation only with two grid inputs that differ in that field alone and give different deadlines, otherwise undecided. " +
+			"A chess-3 helper h(tc, stm) that creates the timer or the option itself is followed: the value its consumer receives is probed on every path of h. Branch facts about arbitrary sub-terms (explicit bounds checks instead of Clamp) are used by the prover (rules F, L-fact). " +
 			"The value checked is the one the consumer receives, in the consumer's unit (time.Millisecond per ms for a timer, 1 for WithSoftTime), so a unit conversion may sit at the call site or inside a helper. " +
 			"R3: every timer in handleGo is time.NewTimer(k · f(tc, stm)) with stm loaded once from d.board.STM (directly or through an accessor), the conditions on tc/stm guarding it are proved to hold on the whole domain (the timer is really armed; otherwise undecided, with a grid input on which the guard is false), its channel is a select case whose body leaves the goroutine, whose deferred close releases the stop channel given to the search; WithSoftTime receives soft(tc, stm) under a guard that holds for movetime. " +
 			"R4: each of wtime/btime/winc/binc/movetime stores a value derived from args into its own distinct field of tc, and nothing else stores to tc. " +
@@ -1362,24 +1486,39 @@ func (w *c14W) r4() {
 
 // sites finds the consumers: timers (package time) and search.WithSoftTime, in handleGo and its closures.
 func (w *c14W) sites() (hard, soft []*c14Site) {
+	consumer := func(ci ssa.CallInstruction) (isTimer, isSoft bool, name string) {
+		obj := calleeObj(ci)
+		if obj == nil || obj.Pkg() == nil || len(ci.Common().Args) == 0 {
+			return
+		}
+		isTimer = obj.Pkg().Path() == "time" && map[string]bool{"NewTimer": true, "After": true, "AfterFunc": true, "Tick": true, "NewTicker": true, "Reset": true}[obj.Name()]
+		return isTimer, objName(obj) == "search.WithSoftTime", obj.Name()
+	}
+	add := func(s *c14Site, isSoft bool) {
+		if isSoft {
+			s.name = fmt.Sprintf("soft#%d", len(soft))
+			soft = append(soft, s)
+		} else {
+			s.name = fmt.Sprintf("timer#%d", len(hard))
+			hard = append(hard, s)
+		}
+	}
+	const notNewTimer = " is not understood by the rule (only time.NewTimer is)"
+	// pass 1: consumers called in handleGo or its closures
 	for _, fn := range w.fam.fns {
 		allInstrs(fn, func(in ssa.Instruction) {
 			ci, ok := in.(ssa.CallInstruction)
 			if !ok {
 				return
 			}
-			obj := calleeObj(ci)
-			if obj == nil || obj.Pkg() == nil || len(ci.Common().Args) == 0 {
-				return
-			}
-			isTimer := obj.Pkg().Path() == "time" && map[string]bool{"NewTimer": true, "After": true, "AfterFunc": true, "Tick": true, "NewTicker": true, "Reset": true}[obj.Name()]
-			isSoft := objName(obj) == "search.WithSoftTime"
+			isTimer, isSoft, name := consumer(ci)
 			if !isTimer && !isSoft {
 				return
 			}
 			s := &c14Site{at: ci}
-			if isTimer && obj.Name() != "NewTimer" {
-				s.err = "timer source time." + obj.Name() + " is not understood by the rule (only time.NewTimer is)"
+			s.tv, _ = in.(ssa.Value)
+			if isTimer && name != "NewTimer" {
+				s.err = "timer source time." + name + notNewTimer
 			} else if unit, core, ok := w.scale(ci.Common().Args[0]); !ok {
 				s.err = "argument is not (constant ·) a call"
 			} else {
@@ -1390,12 +1529,61 @@ func (w *c14W) sites() (hard, soft []*c14Site) {
 					s.err = "argument is not computed from the time-control struct and the side to move"
 				}
 			}
-			if isSoft {
-				s.name = fmt.Sprintf("soft#%d", len(soft))
-				soft = append(soft, s)
-			} else {
-				s.name = fmt.Sprintf("timer#%d", len(hard))
-				hard = append(hard, s)
+			add(s, isSoft)
+		})
+	}
+	// pass 2: helpers h(tc, stm) of chess-3 that create the timer / the option themselves; the value
+	// the consumer receives inside h is probed on every path of h
+	for _, fn := range w.fam.fns {
+		allInstrs(fn, func(in ssa.Instruction) {
+			call, ok := in.(*ssa.Call)
+			if !ok {
+				return
+			}
+			callee := call.Call.StaticCallee()
+			if callee == nil || !isOwn(callee) || callee.Blocks == nil {
+				return
+			}
+			hasTC := false
+			for _, a := range call.Call.Args {
+				if al, _ := w.fam.structAlloc(a); al != nil && (w.tc == nil || al == w.tc) {
+					hasTC = true
+				}
+			}
+			if !hasTC {
+				return
+			}
+			var inner []ssa.CallInstruction
+			allInstrs(callee, func(x ssa.Instruction) {
+				if ci, ok := x.(ssa.CallInstruction); ok {
+					if t, so, _ := consumer(ci); t || so {
+						inner = append(inner, ci)
+					}
+				}
+			})
+			if len(inner) == 0 {
+				return
+			}
+			root, touches, err := w.classify(call)
+			for _, ci := range inner {
+				isTimer, isSoft, name := consumer(ci)
+				s := &c14Site{at: call, unit: 1, err: err}
+				if s.err == "" && !touches {
+					s.err = "helper wrapping the consumer is not called with the time-control struct and the side to move"
+				}
+				if s.err == "" && isTimer && name != "NewTimer" {
+					s.err = "timer source time." + name + notNewTimer
+				}
+				root.probeAt, root.probeVal = ci, ci.Common().Args[0]
+				s.root = root
+				if iv, ok := ci.(ssa.Value); ok { // does the helper hand the timer back to its caller?
+					allInstrs(callee, func(x ssa.Instruction) {
+						if ret, ok := x.(*ssa.Return); ok && len(ret.Results) > 0 && backSlice(ret.Results[0], sliceOpts{ThroughLoads: true})[iv] {
+							s.tv = call
+						}
+					})
+				}
+				add(s, isSoft)
 			}
 		})
 	}
@@ -1433,7 +1621,7 @@ func (w *c14W) goals(d int, S int64) []c14Goal {
 	}, nil, "an intermediate value (or the conversion to time.Duration) may leave int64 inside the stated domain: the integer reasoning of the other goals does not transfer to the machine"}
 	if d == 2 {
 		mt := w.mt
-		return []c14Goal{{"equals-movetime", func(fs c14Facts, t *c14T) bool { return c14Eq(t, c14Bin('*', S, c14Var(mt), nil)) },
+		return []c14Goal{{"equals-movetime", func(fs c14Facts, t *c14T) bool { k, core := c14Coef(t); return k == S && c14Eq(core, c14Var(mt)) },
 			func(env map[int]int64, r int64) bool { return r == S*env[mt] }, "with a fixed move time the limit must equal it (in the consumer's unit)"}, noOverflow}
 	}
 	r, m := w.clock[d], w.margin
@@ -1919,7 +2107,7 @@ func (w *c14W) r3(hard, soft []*c14Site) {
 		if s.err != "" {
 			continue
 		}
-		tv, _ := s.at.(*ssa.Call)
+		tv := s.tv
 		fn := s.at.Parent()
 		var sel *ssa.Select
 		idx := -1
